@@ -44,6 +44,7 @@ pub mod ipose {
                     return -1;
                 }
             }
+            delay(req as u64);
             *libc::__errno_location() = 0;
             let ret = f(req, pid, addr, data);
             let errno = *libc::__errno_location();
@@ -51,6 +52,12 @@ pub mod ipose {
                 // for GETREGS/SETREGS keep the program counter that was read / written
                 let rip = if (req == libc::PTRACE_GETREGS || req == libc::PTRACE_SETREGS) && ret == 0 && !data.is_null() {
                     (*(data as *const libc::user_regs_struct)).rip
+                } else if req == libc::PTRACE_GETSIGINFO && ret == 0 && !data.is_null() {
+                    // (C09) the si_code that was read travels in the `rip` field
+                    (*(data as *const libc::siginfo_t)).si_code as u32 as u64
+                } else if req == libc::PTRACE_GETEVENTMSG && ret == 0 && !data.is_null() {
+                    // (C09) the event message (new thread id of a clone event) travels in the `rip` field
+                    *(data as *const libc::c_ulong) as u64
                 } else { 0 };
                 LOG.lock().unwrap().push(Ev::Ptrace { req, pid, addr: addr as u64, data: data as u64, ret: ret as i64, errno, rip });
                 *libc::__errno_location() = errno;
@@ -65,6 +72,7 @@ pub mod ipose {
             static REAL: std::sync::OnceLock<usize> = std::sync::OnceLock::new();
             let f: WaitFn = std::mem::transmute(*REAL.get_or_init(|| libc::dlsym(libc::RTLD_NEXT, c"waitpid".as_ptr()) as usize));
             let ret = f(pid, st, opt);
+            if DELAY_MAX_US.load(Ordering::Relaxed) != 0 { let e = *libc::__errno_location(); delay(0x1000); *libc::__errno_location() = e; }
             if ENABLED.load(Ordering::Relaxed) {
                 let errno = *libc::__errno_location();
                 let status = if st.is_null() { 0 } else { *st };
@@ -73,6 +81,25 @@ pub mod ipose {
             }
             ret
         }
+    }
+
+    /// (C09) seeded schedule perturbation: with `set_delay(seed, max_us)` every `waitpid` return and every
+    /// PTRACE_INTERRUPT / PTRACE_CONT / PTRACE_SINGLESTEP call is preceded by a pseudo-random sleep of 0..max_us
+    /// microseconds (three quarters of the points do not sleep at all). Off (max_us = 0) by default.
+    pub static DELAY_MAX_US: std::sync::atomic::AtomicU64 = std::sync::atomic::AtomicU64::new(0);
+    pub static DELAY_STATE: std::sync::atomic::AtomicU64 = std::sync::atomic::AtomicU64::new(0);
+    pub fn set_delay(seed: u64, max_us: u64) { DELAY_STATE.store(seed | 1, Ordering::Relaxed); DELAY_MAX_US.store(max_us, Ordering::Relaxed); }
+    fn delay(point: u64) {
+        let max = DELAY_MAX_US.load(Ordering::Relaxed);
+        if max == 0 { return; }
+        if point != 0x1000 && point != libc::PTRACE_INTERRUPT as u64 && point != libc::PTRACE_CONT as u64 && point != libc::PTRACE_SINGLESTEP as u64 { return; }
+        let mut z = DELAY_STATE.load(Ordering::Relaxed).wrapping_add(0x9E37_79B9_7F4A_7C15);
+        DELAY_STATE.store(z, Ordering::Relaxed);
+        z = (z ^ (z >> 30)).wrapping_mul(0xBF58_476D_1CE4_E5B9);
+        z = (z ^ (z >> 27)).wrapping_mul(0x94D0_49BB_1331_11EB);
+        z ^= z >> 31;
+        if z & 3 != 0 { return; }
+        std::thread::sleep(std::time::Duration::from_micros((z >> 8) % (max + 1)));
     }
 
     pub fn enable() { ENABLED.store(true, Ordering::Relaxed); }
